@@ -33,6 +33,24 @@ add("C01", "simnet", "model-based property testing (Hypothesis-generated histori
     "exactly the multiset of published frames the reference model predicts, field- and byte-identical. Exploration level: "
     "strong evidence over tens of thousands of histories, no proof of absence.", SIM_NOTE, "DESIGN.md 4 C01")
 
+add("C05", "simnet", "model-based property testing (generated publisher interleavings; stream-framing, sequence-number and order invariants)",
+    "Generated histories with bursts, maximum-size payloads, unwritable subscribers and clock jumps; after every round every byte "
+    "stream parses into whole frames with msg_count 1,2,3,...; at the end per-sender order and pairwise receiver agreement are checked "
+    "on the received logs. Exploration level.", SIM_NOTE, "DESIGN.md 4 C05")
+add("C07", "simnet", "model-based property testing with fault injection (generated departures at generated protocol stages / byte offsets / write-side failures)",
+    "Generated departures (DISCONNECT, FIN, RST, truncated frames, refusal, write-side discovery with EPIPE/ECONNRESET/delayed failure, "
+    "injected failure at a byte offset) in generated service orders; monitors must see exactly one CLIENT_CLOSED per departed "
+    "connection, the socket is closed, ids/names are reusable, survivors' deliveries equal the routing model. Exploration level.",
+    SIM_NOTE + " Logging silenced and clock frozen in this profile so that all manager-originated frames are predicted.", "DESIGN.md 4 C07")
+add("C14", "simnet", "model-based property testing with fault injection (generated writable subsets and write failures; FAILED_MESSAGE oracle in both directions)",
+    "Generated writable snapshots and write failures; every required FAILED_MESSAGE must reach both monitors with the right subscriber "
+    "and original header; no notice may be invented or describe a notice/log message; loggers are waited for. Exploration level.",
+    SIM_NOTE + " Logging silenced and clock frozen in this profile.", "DESIGN.md 4 C14")
+add("C19", "simnet", "model-based property testing (generated control/data histories; per-round ACK accounting and logger copy order)",
+    "Generated control and data frames incl. repeats, no-ops, refused and repeated handshakes with 0-3 loggers; after every round the "
+    "ACK frames on each connection equal the acknowledged requests processed in that round, logger copies follow processing order. "
+    "Exploration level.", SIM_NOTE, "DESIGN.md 4 C19")
+
 PLANNED = {}
 
 
